@@ -8,7 +8,7 @@
 # announcements with peer connects (each followed by the table replays of both ends) before the announcement.
 import vf, _flood as F
 
-DEVS = ["DevReplayUsesOwnSequence"]
+DEVS = ["DevReplayUsesOwnSequence", "DevSeenBlocksResync"]
 
 
 def cfgs(ctx):
@@ -19,6 +19,9 @@ def cfgs(ctx):
         F.base("c14-relay3", F.A3, l3, initups=[l2], exits=[["b"]], announcers=["a"], maxann=2, conn=1),
         # ageing and stale-route cleanup between the announcements
         F.base("c14-age3", F.A3, l3, initups=[l2], exits=[["a"]], announcers=["a"], maxann=2, conn=1, age=1),
+        # a link is lost and comes back between / after the announcements: the replay (origin's sequence) must restore
+        # what the disconnect removed, and later announcements must still renew it
+        F.base("c14-rejoin3", F.A3, l3, initups=[l3], exits=[["a"]], announcers=["a"], maxann=2, conn=1, disc=1),
     ]
     if not ctx.quick():
         # presence-only agents: b's counter gets ahead of a's through b's own announcements
